@@ -494,6 +494,9 @@ func (ex *Exec) verifCall(fr *Frame, f *ssa.Function, cc *ssa.CallCommon, args [
 		return c.Const(64, uint64(ex.choice(ex.labelOf(args[0]), int(n.Val))))
 	case "Split":
 		return c.Const(64, ex.concretize(args[1].(*Term), int(args[2].(*Term).Val), "Split "+ex.labelOf(args[0])))
+	case "Concretize":
+		// Concretize(label, x, n): fork over up to n feasible values of x (solver-guided); symbolic afterwards
+		return ex.concretizeModel(args[1].(*Term), int(args[2].(*Term).Val))
 	case "Assume":
 		t := args[0].(*Term)
 		ex.assume(t)
